@@ -14,7 +14,7 @@ Hypothesis lower_keeps_dotbin : forall a, ends_with (lower (a ++ dotbin)) dotbin
 
 Lemma starts_slash_app n s : starts_with n slash = false -> n <> [] -> starts_with (n ++ s) slash = false.
 Proof.
-  intros H Hn. destruct n as [|x n]; [congruence|]. unfold starts_with, take in *. exact H.
+  intros H Hn. destruct n as [|x n]; [congruence|]. unfold starts_with in *; rewrite ?take_raw in *; unfold take0 in *. exact H.
 Qed.
 
 Lemma strip_suffix n : pyslice (n ++ dotbin) None (Some (-4)) = n.
@@ -22,12 +22,12 @@ Proof.
   unfold pyslice, clampidx. rewrite len_app. change (len dotbin) with 4.
   pose proof (len_nonneg n). cbn [Z.ltb]. replace (-4 <? 0) with true by reflexivity.
   replace (Z.max 0 (len n + 4 + -4)) with (len n) by lia. rewrite Z.sub_0_r.
-  unfold slice. simpl skipn. unfold len. rewrite Nat2Z.id.
+  rewrite ?slice_raw; unfold slice0. simpl skipn. unfold len. rewrite Nat2Z.id.
   rewrite firstn_app, Nat.sub_diag, firstn_all. simpl. apply app_nil_r.
 Qed.
 
 Lemma strip_slash n : pyslice (slash ++ n) (Some 1) None = n.
-Proof. rewrite pyslice_from by lia. reflexivity. Qed.
+Proof. rewrite pyslice_from by lia. rewrite drop_raw. reflexivity. Qed.
 
 (* every stored name N that does not start with '/' and does not (case-insensitively) end in ".bin" is reached by
    all four documented spellings: N, /N, N.bin, /N.bin *)
